@@ -99,8 +99,11 @@ def install(E):
 
     # ---- sha256
     def sum256(e, a):
-        s = e.sha256(e.tobytes(a[0]))
-        if s.c is not None: return ArrayV([ord(ch) for ch in s.c])
+        src = e.tobytes(a[0])
+        s = e.sha256(src)
+        if s.c is not None:
+            inj(e, 'sha256', e.lit(s.c), e.lit(src.c))      # concrete digests take part in the collision-freedom instances
+            return ArrayV([ord(ch) for ch in s.c])
         inj(e, 'sha256', s.t, s.t.arg(0))
         return ArrayV([sbyte(s.t, z3.BitVecVal(k, 64)) for k in range(32)])
     I['crypto/sha256.Sum256'] = sum256
@@ -112,6 +115,7 @@ def install(E):
         p = a[0].v
         d = e.sha256(e.peek(p).val)
         if d.c is None: inj(e, 'sha256', d.t, d.t.arg(0))
+        else: inj(e, 'sha256', e.lit(d.c), e.lit(e.peek(p).val.c))
         return BytesV(e.sconcat(e.tobytes(a[1]), d))
     I['method:verif.sha256.Sum'] = h_sum
 
